@@ -24,15 +24,15 @@ Qed.
 Lemma bind_ext : forall {A B} (a : M A) (f g : A -> M B), (forall v, f v = g v) -> bind a f = bind a g.
 Proof. intros A B [es [v|x]] f g H; cbn; [rewrite H|]; reflexivity. Qed.
 
-Lemma sbind_lift : forall {A B} (a : M A) (f : A -> stm B), sbind (lift a) f = bind a f.
+Lemma sbind_lift : forall {R A B} (a : M A) (f : A -> stm R B), sbind (lift a) f = bind a f.
 Proof.
   intros. unfold sbind, lift. rewrite bind_assoc. apply bind_ext. intros v. rewrite bind_ret_l. reflexivity.
 Qed.
 
-Lemma lift_bind : forall {A B} (a : M A) (f : A -> M B), lift (bind a f) = bind a (fun v => lift (f v)).
+Lemma lift_bind : forall {R A B} (a : M A) (f : A -> M B), @lift R _ (bind a f) = bind a (fun v => lift (f v)).
 Proof. intros. unfold lift. apply bind_assoc. Qed.
 
-Lemma sbind_next_l : forall {A B} (v : A) (f : A -> stm B), sbind (next v) f = f v.
+Lemma sbind_next_l : forall {R A B} (v : A) (f : A -> stm R B), sbind (next v) f = f v.
 Proof. intros. unfold sbind, next. rewrite bind_ret_l. reflexivity. Qed.
 
 (* ------------------------------------------------------------------------------------------ loops *)
@@ -40,34 +40,34 @@ Lemma indexed_from_cons : forall i w st, indexed_from i (w :: st) = (i, w) :: in
 Proof. reflexivity. Qed.
 
 (* one iteration of a message-hook loop / of a result-hook loop, as the model performs it *)
-Definition msg_step (k : hookk) (sel : mw -> option (msg -> option msg)) (j : nat) (w : mw) (m : msg) : stm msg :=
+Definition msg_step {R} (k : hookk) (sel : mw -> option (msg -> option msg)) (j : nat) (w : mw) (m : msg) : stm R msg :=
   match sel w with
   | None => next m
   | Some f => lift (emit (FHookM k j m) ;;; match f m with Some m' => ret m' | None => raise XHook end)
   end.
-Definition res_step (k : hookk) (sel : mw -> option (res -> option res)) (x : option nat) (m : msg)
-           (j : nat) (w : mw) (r : res) : stm res :=
+Definition res_step {R} (k : hookk) (sel : mw -> option (res -> option res)) (x : option nat) (m : msg)
+           (j : nat) (w : mw) (r : res) : stm R res :=
   match sel w with
   | None => next r
   | Some f => lift (emit (FHookR k j m r x) ;;; match f r with Some r' => ret r' | None => raise XHook end)
   end.
 
-Lemma for_msg_hook : forall k sel (body : nat * mw -> msg -> stm msg) st i m,
+Lemma for_msg_hook : forall {R} k sel (body : nat * mw -> msg -> stm R msg) st i m,
   (forall j w m', body (j, w) m' = msg_step k sel j w m') ->
   for_ (indexed_from i st) body m = lift (msg_hook_loop k sel i st m).
 Proof.
-  intros k sel body st. induction st as [|w st IH]; intros i m H; [reflexivity|].
+  intros R k sel body st. induction st as [|w st IH]; intros i m H; [reflexivity|].
   cbn [indexed_from for_ msg_hook_loop]. rewrite H. unfold msg_step. destruct (sel w) as [f|].
   - rewrite sbind_lift, lift_bind, bind_assoc. apply bind_ext. intros _.
     rewrite lift_bind. apply bind_ext. intros m'. apply IH. exact H.
   - rewrite sbind_next_l. apply IH. exact H.
 Qed.
 
-Lemma for_res_hook : forall k sel x m (body : nat * mw -> res -> stm res) st i r,
+Lemma for_res_hook : forall {R} k sel x m (body : nat * mw -> res -> stm R res) st i r,
   (forall j w r', body (j, w) r' = res_step k sel x m j w r') ->
   for_ (indexed_from i st) body r = lift (res_hook_loop k sel x i st m r).
 Proof.
-  intros k sel x m body st. induction st as [|w st IH]; intros i r H; [reflexivity|].
+  intros R k sel x m body st. induction st as [|w st IH]; intros i r H; [reflexivity|].
   cbn [indexed_from for_ res_hook_loop]. rewrite H. unfold res_step. destruct (sel w) as [f|].
   - rewrite sbind_lift, lift_bind, bind_assoc. apply bind_ext. intros _.
     rewrite lift_bind. apply bind_ext. intros r'. apply IH. exact H.
